@@ -67,6 +67,18 @@ def candidates():
             if '.is_some()' in l: add('some-to-none', l.replace('.is_some()', '.is_none()', 1))
             if '.is_none()' in l: add('none-to-some', l.replace('.is_none()', '.is_some()', 1))
             if '.any(' in l: add('any-to-all', l.replace('.any(', '.all(', 1))
+            # second batch of operators
+            if re.search(r'= 0;', l): add('zero-to-one', l.replace('= 0;', '= 1;', 1))
+            if re.search(r'= 1;', l): add('one-to-zero', l.replace('= 1;', '= 0;', 1))
+            if ' += ' in l: add('plus-to-minus-assign', l.replace(' += ', ' -= ', 1))
+            if re.search(r'\[\.\.[a-z_]+\]', l): add('slice-shorter', re.sub(r'\[\.\.([a-z_]+)\]', r'[..\1 - 1]', l, 1))
+            if re.search(r'\b0\.\.', l): add('range-from-one', re.sub(r'\b0\.\.', '1..', l, 1))
+            if '.0' in l and '.1' in l: add('swap-tuple', l.replace('.0', '.@@').replace('.1', '.0').replace('.@@', '.1'))
+            if re.search(r'= Some\(', l) and 'let ' not in l: add('some-to-none-assign', re.sub(r'= Some\([^;]*\);', '= None;', l, 1))
+            if ' * ' in l and 'fn ' not in l and '*mut' not in l and '*const' not in l: add('mul-to-add', l.replace(' * ', ' + ', 1))
+            if ' % ' in l: add('mod-to-div', l.replace(' % ', ' / ', 1))
+            if '.skip(1)' in l: add('drop-skip', l.replace('.skip(1)', '', 1))
+            if '.is_empty()' in l and '!' not in l.split('.is_empty()')[0][-12:]: add('empty-to-nonempty', l.replace('.is_empty()', '.len() > 0 /*m*/', 1))
             if '.all(' in l: add('all-to-any', l.replace('.all(', '.any(', 1))
     return out
 
